@@ -752,6 +752,17 @@ def build_ugrid(r: dict) -> Built:
     return b
 
 
+# the subsets of optional connectivity tables worth telling apart (which derivations emsarray has to do itself)
+TABLE_SUBSETS = [[], ['edge_node'], ['edge_face'], ['edge_node', 'edge_face'], ['face_edge'],
+                 ['edge_face', 'face_face'], ['edge_node', 'face_edge'], ['edge_node', 'face_edge', 'edge_face', 'face_face'],
+                 ['face_face'], ['face_edge', 'edge_face']]
+
+
+def tables_for(k: int) -> list:
+    """walk the table subsets systematically (k = running number of the mesh within a check)"""
+    return list(TABLE_SUBSETS[k % len(TABLE_SUBSETS)])
+
+
 _UGRID_CALLS = None
 ENC_COMBOS = [(f, sp, b) for b in (0, 1) for f, sp in
               [('attr', 'i4big'), ('attr', 'low'), ('attr', 'neg'), ('attr', 'u4max'), ('attr', 'i8max'), ('attr', 'i2'),
